@@ -47,6 +47,9 @@ func ParseAuditPath(serialized map[string]hashing.Digest) AuditPath {
 	parsed := make(AuditPath, len(serialized))
 	for k, v := range serialized {
 		tokens := strings.Split(k, "|")
+		if len(tokens) != 2 {
+			continue // malformed key: ignore the entry
+		}
 		index, _ := strconv.Atoi(tokens[0])
 		height, _ := strconv.Atoi(tokens[1])
 		var key [keySize]byte
@@ -79,7 +82,7 @@ func (p MembershipProof) Verify(eventDigest []byte, expectedRootHash hashing.Dig
 	visitor := newComputeHashVisitor(p.hasher, p.AuditPath)
 	recomputed := pruneToVerify(p.Index, p.Version, eventDigest).Accept(visitor)
 
-	return bytes.Equal(recomputed, expectedRootHash)
+	return !visitor.missing && bytes.Equal(recomputed, expectedRootHash)
 }
 
 type IncrementalProof struct {
@@ -104,6 +107,6 @@ func (p IncrementalProof) Verify(startDigest, endDigest hashing.Digest) (correct
 	startRecomputed := pruneToVerifyIncrementalStart(p.StartVersion).Accept(visitor)
 	endRecomputed := pruneToVerifyIncrementalEnd(p.StartVersion, p.EndVersion).Accept(visitor)
 
-	return bytes.Equal(startRecomputed, startDigest) && bytes.Equal(endRecomputed, endDigest)
+	return !visitor.missing && bytes.Equal(startRecomputed, startDigest) && bytes.Equal(endRecomputed, endDigest)
 
 }
